@@ -149,9 +149,10 @@ class Gen:
 
   def one(s, depth):
     rng = s.rng
-    k = rng.choices(['alu', 'addi', 'lw', 'sw', 'swlw', 'bump', 'save', 'csrr', 'csrw', 'nop', 'skip', 'loop', 'lwuse'],
-                    [30, 12, 10, 9, 7, 2, 2, 5, 6, 2, 7, 7 if depth < 2 else 0, 7])[0]
-    if k == 'alu': s.emit(rng.choice(['add', 'and', 'sll', 'srl']), s.dst(), s.src(), s.src())
+    k = rng.choices(['alu', 'addi', 'lw', 'sw', 'swlw', 'bump', 'save', 'csrr', 'csrw', 'nop', 'skip', 'loop', 'lwuse', 'alias'],
+                    [30, 12, 10, 9, 7, 2, 2, 5, 6, 2, 7, 7 if depth < 2 else 0, 7, 7])[0]
+    if k == 'alias': s.alias()
+    elif k == 'alu': s.emit(rng.choice(['add', 'and', 'sll', 'srl']), s.dst(), s.src(), s.src())
     elif k == 'addi': s.emit('addi', s.dst(), s.src(), 0, rng.choice(IMMS) if rng.random() < 0.6 else rng.randint(-2048, 2047))
     elif k == 'lw':
       b, off = s.mem_operand(); s.emit('lw', s.dst(), b, 0, off)
@@ -201,6 +202,66 @@ class Gen:
       s.emit('bne', 0, c, 0, L)
       s.free_counters.append(c)
       if rng.random() < 0.5: s.shadow()
+
+  def filler(s, G):
+    rng = s.rng; c = rng.random()
+    if c < 0.4: s.items.append(('nop',)); s.count += 1
+    elif c < 0.7: s.emit('addi', (g := rng.choice(G)), g, 0, 1)
+    else: s.emit(rng.choice(['add', 'and', 'sll', 'srl']), rng.choice(G), rng.choice(G), rng.choice(G))
+
+  def alias(s):
+    """"false producer" hazard: a NON-writing instruction (sw / bne; csrw and nop have rd field 0) whose instruction
+    bits [11:7] -- sw: offset[4:0]; bne: offset[4:1|11] -- equal the number r of a register that one of the next 1-3
+    instructions reads (as rs2, rs1, both, store data or branch operand). r holds a distinctive non-zero value and must
+    come from the register file, never from a bypass path keyed on the rd field."""
+    rng = s.rng
+    r = rng.randint(1, 31)
+    G = [x for x in G_REGS if x != r]
+    if r in G_REGS and rng.random() < 0.6:
+      s.emit('addi', r, 0, 0, rng.choice([100 + r, -r, 0x7ff - r, 1 + r]))
+      for _ in range(rng.randint(0, 4)): s.filler(G)
+    kind = rng.choice(['sw', 'sw', 'bne_nt', 'bne_nt', 'bne_t'])
+    if kind == 'bne_t' and (r % 4 or not 8 <= r <= 24): kind = 'bne_nt'
+    if kind == 'sw':
+      p = rng.choice([x for x in P_REGS if x != r])
+      off = r + 32 * rng.choice([-2, -1, 0, 0, 0, 1, 2])          # offset[4:0] = r
+      if off % 4 == 0 and -24 <= off <= 24 and rng.random() < 0.5: base = p
+      else:
+        base = rng.choice(G); s.emit('addi', base, p, 0, 4 * rng.randint(-6, 6) - off)
+      s.emit('sw', 0, base, rng.choice(G + [0]), off)
+    elif kind == 'bne_nt':                                        # never taken: both operands the same register
+      a = rng.choice([x for x in range(32) if x != r])
+      off = r + 32 * rng.choice([0, 0, 1, 2]) if r % 2 == 0 else (r - 1) - 32 * rng.choice([1, 1, 2, 3])   # [4:1|11] = r
+      s.emit('bne', 0, a, a, off)
+    else:                                                         # taken forward branch over r/4 - 1 instructions
+      p = rng.choice([x for x in P_REGS if x != r]); L = s.label()
+      s.emit('bne', 0, *rng.choice([(p, 0), (0, p)]), L)
+      for _ in range(r // 4 - 1): s.filler(G)
+      s.items.append(('label', L))
+    for _ in range(rng.choice([0, 1, 1, 1, 1, 2])): s.filler(G)   # consumer 1..3 slots behind (2 = M stage with 1-cycle memory)
+    dst = rng.choice(G); a = rng.choice([x for x in range(32) if x != r])
+    c = rng.choice(['rs2', 'rs2', 'rs2', 'rs1', 'both', 'sw_data', 'sw_data', 'bne_rs2', 'bne_rs1'])
+    op = rng.choice(['add', 'and', 'sll', 'srl', 'add'])
+    if c == 'rs2': s.emit(op, dst, a, r)
+    elif c == 'rs1': s.emit(op, dst, r, a)
+    elif c == 'both': s.emit(op, dst, r, r)
+    elif c == 'sw_data': s.emit('sw', 0, rng.choice(P_REGS), r, 4 * rng.randint(-6, 6))
+    else:
+      L = s.label(); s.emit('bne', 0, *((a, r) if c == 'bne_rs2' else (r, a)), L)
+      s.emit('addi', dst, dst, 0, 1); s.items.append(('label', L)); s.emit('addi', dst, dst, 0, 2)
+    if rng.random() < 0.6: s.emit('csrw', 0, dst, 0, 0x7C0)
+
+  def alias_program(s):
+    """program made of false-producer patterns, registers preloaded with distinctive non-zero values"""
+    rng = s.rng
+    for p in P_REGS: s.emit('csrr', p, 0, 0, 0xFC0)
+    for c in C_REGS: s.emit('addi', c, 0, 0, 0x300 + c)
+    for r in G_REGS: s.emit('addi', r, 0, 0, 64 + r)
+    while s.count < s.size:
+      s.alias()
+      for _ in range(rng.choice([0, 0, 1, 3, 5])): s.items.append(('nop',)); s.count += 1
+    for r in range(1, 32): s.emit('csrw', 0, r, 0, 0x7C0)
+    return s.items
 
   def shadow(s):
     """an instruction with an architectural side effect right behind a branch (must be squashed when the branch is taken)"""
@@ -266,7 +327,7 @@ def resolve(items):
     if it[0] == 'nop': out.append((pc, 'addi', 0, 0, 0, 0))
     else:
       name, rd, rs1, rs2, imm = it
-      out.append((pc, name, rd, rs1, rs2, lab[imm] - pc if name == 'bne' else imm))
+      out.append((pc, name, rd, rs1, rs2, lab[imm] - pc if name == 'bne' and isinstance(imm, str) else imm))
     pc += 4
   return out
 
@@ -278,11 +339,12 @@ def image_words(mem_image):
       ws += [(sec.addr + 4 * i, w[0]) for i, w in enumerate(struct.iter_unpack('<I', bytes(sec.data)))]
   return ws
 
-def gen_program(rng, size, fuel):
+def gen_program(rng, size, fuel, family='mixed'):
   """rejection-sample a program that the ISA (the direct oracle) defines completely and that terminates.
+  family: 'mixed' (everything) or 'alias' (false-producer patterns only).
   Returns dict(text, words, inp, insts, ref) with ref = oracle result."""
   for attempt in range(200):
-    g = Gen(rng, size); items = g.program()
+    g = Gen(rng, size); items = g.alias_program() if family == 'alias' else g.program()
     data = [rng.choice(VALS) if rng.random() < 0.3 else rng.getrandbits(32) for _ in range(NDATA)]
     text = to_text(items, data)
     img = assemble(text)
